@@ -287,7 +287,7 @@ impl Prop for NodePart {
         let mut steps = vec![];
         for _ in 0..n {
             if src.chance(2, 5) {
-                match src.weighted(&[4, 3, 2, 1]) {
+                match src.weighted(&[4, 3, 2, 1, 3, 2]) {
                     0 => {
                         // some nodes join
                         for _ in 0..1 + src.below(3) {
@@ -305,7 +305,24 @@ impl Prop for NodePart {
                         let dc = src.below(3);
                         cur.retain(|_, d| *d != dc);
                     },
-                    _ => cur.clear(),
+                    3 => cur.clear(),
+                    4 => {
+                        // one node is replaced by another one in the same update (member count unchanged)
+                        if let Some((old, dc)) = cur.iter().nth(src.below(cur.len().max(1))).map(|(k, v)| (*k, *v)) {
+                            let fresh = (2..30u8).find(|i| !cur.contains_key(i) && *i != old);
+                            if let Some(f) = fresh {
+                                cur.remove(&old);
+                                cur.insert(f, if src.chance(1, 2) { dc } else { src.below(3) });
+                            }
+                        }
+                    },
+                    _ => {
+                        // a node moves to another data centre (member count unchanged)
+                        if let Some(id) = cur.keys().nth(src.below(cur.len().max(1))).copied() {
+                            let dc = cur[&id];
+                            cur.insert(id, (dc + 1 + src.below(2)) % 3);
+                        }
+                    },
                 }
                 steps.push(Step::Members(cur.clone()));
             } else {
@@ -332,7 +349,8 @@ impl Prop for NodePart {
 
     fn rule(&self) -> &'static str {
         "one real DatacakeNode (id 1, dc-0): 2-15 steps, each either a membership snapshot over ids 2-9 in 3 data \
-         centres (nodes join, a node leaves, a whole data centre leaves, everybody leaves) published via hook \
+         centres (nodes join, a node leaves, a whole data centre leaves, everybody leaves, a node is replaced by another \
+         one or moves to another data centre in ONE update so the member count stays the same) published via hook \
          H-members, or DatacakeNode::select_nodes with a generated level (selector actor, cursors and result cache \
          included); oracle: the same validity predicate as part `selector`, judged against the snapshot current at \
          the time of the call; non-trivial = a selection after a snapshot that removed a node or a data centre"
